@@ -64,7 +64,8 @@ META = {
     "shards": {"quick": 8, "thorough": 16},
     "soft_s": {"quick": 60, "thorough": 900},
     "exhaustive": {"quick": True, "thorough": True},
-    "require": ["biconditional_checks", "pair_changes", "reload_checks", "persistent_steps", "failed_ops", "seq_steps"],
+    "require": ["biconditional_checks", "pair_changes", "reload_checks", "persistent_steps", "failed_ops", "seq_steps",
+                "slice_class_cases", "queued_ops", "queued_load_checks"],
     "assumptions": [],
 }
 
@@ -422,7 +423,7 @@ def random_op(w, rng):
     if fam == "list":
         name = rng.choice(["append", "append", "remove", "insert", "pop", "setitem", "delitem", "setslice",
                            "delslice", "iadd", "extend", "replace", "clear", "delattr", "swap"])
-        b = lambda: rng.choice([None] + list(range(-cur, cur + 1)))
+        b = lambda: rng.choice([None, None] + list(range(-cur - 2, cur + 3)))
         if name in ("append", "remove"):
             return ("coll", side, h, name, rng.randrange(nm))
         if name == "insert":
@@ -432,14 +433,15 @@ def random_op(w, rng):
         if name == "setitem":
             return ("coll", side, h, name, rng.randint(-cur - 1, cur), rng.randrange(nm))
         if name == "setslice":
-            step = rng.choice([None, None, 1, 2])
+            step = rng.choice([None, None, 1, 2, 3, -1, -2])
             sl = [b(), b(), step]
             rhs = uniq()
-            if step == 2:
+            if step not in (None, 1) and rng.random() < 0.8:
+                # extended slice: a right-hand side of exactly the slice's length
                 rhs = (rhs + uniq() + [0, 1, 2])[: len(range(*slice(*sl).indices(cur)))]
             return ("coll", side, h, name, sl, rhs)
         if name == "delslice":
-            return ("coll", side, h, name, [b(), b(), rng.choice([None, 1, 2, -1])])
+            return ("coll", side, h, name, [b(), b(), rng.choice([None, 1, 2, 3, -1, -2])])
         if name in ("iadd", "extend"):
             return ("coll", side, h, name, some())
         if name == "replace":
@@ -571,6 +573,182 @@ def flush_reload(env, w, sess, trail):
 PERSIST = ("persist",)
 
 
+def slice_grid(quick):
+    vals = (None, -4, -3, -2, -1, 0, 1, 2, 3, 4)
+    steps = (None, 1, 2, 3, -1, -2) if quick else (None, 1, 2, 3, 4, -1, -2, -3)
+    for st in vals:
+        for sp in vals:
+            for step in steps:
+                yield [st, sp, step]
+
+
+def slice_class_part(env, ctx, idx0):
+    """input class "list mutators with extended slices": every list collection (one-to-many,
+    both sides of many-to-many) holding 0..n members gets every slice deletion and slice
+    assignment of the grid start/stop in {None,-4..4} x step in {None,1,2,3,-1,-2}
+    (negative, out-of-range and empty slices included); the two sides are compared after
+    the operation and, for a sample, after flush + reload."""
+    idx = idx0
+    for kind in ("o2m_list", "m2m_list"):
+        sides = [("P", 3)] + ([("C", 2)] if kind == "m2m_list" else [])
+        for side, pool in sides:
+            for n in range(0, pool + 1):
+                members = list(range(n))
+                rest = [k for k in range(pool) if k >= n]
+                for sl in slice_grid(ctx.quick):
+                    idx += 1
+                    if not ctx.mine(idx):
+                        continue
+                    persist = [PERSIST] if (idx // ctx.nshards) % 9 == 0 else []
+                    ctx.count("slice_class_cases")
+                    run_sequence(env, kind, [("coll", side, 0, "replace", members),
+                                             ("coll", side, 0, "delslice", sl)] + persist)
+                    # assignment: the non-members as right-hand side (0, 1 or all of them, and
+                    # exactly as many as the slice selects); then delete the same slice again
+                    k = len(range(*slice(*sl).indices(n)))
+                    for rhs in ([], rest[:1], rest, (rest + members)[:k]):
+                        run_sequence(env, kind, [("coll", side, 0, "replace", members),
+                                                 ("coll", side, 0, "setslice", sl, list(rhs)),
+                                                 ("coll", side, 0, "delslice", sl)] + persist)
+    return idx
+
+
+# --------------------------------------------------------------------------
+# backref mutations queued against unloaded collections
+# --------------------------------------------------------------------------
+def other_side_ops(w, nc):
+    """every attach / detach expressed on the side opposite to the collection under test"""
+    ops = []
+    for j in range(nc):
+        for i in range(len(w.P)):
+            if w.m2m:
+                ops.append(("coll", "C", j, "add" if w.fam == "set" else "append", i))
+                ops.append(("coll", "C", j, "discard" if w.fam == "set" else "remove", i))
+            else:
+                ops.append(("setpar", j, i))
+        if not w.m2m:
+            ops.append(("setpar", j, None))
+    return ops
+
+
+def queued_case(env, kind, init_pairs, ops, arrival, load_mid=None, nc=2):
+    """The collections on the parent side are NOT loaded (objects fetched anew, or expired)
+    and autoflush is off; ``ops`` mutate the relationship through the other side, so the
+    backrefs are queued against the unloaded collections.  Then the collections are loaded:
+    both sides must agree (with what the program did on the loaded side), and flush +
+    expire + reload must keep exactly those pairs."""
+    from sqlalchemy import orm
+
+    ctx = env.ctx
+    w = World(env, kind, nc=nc)
+    if w.fam == "dict":
+        for j, c in enumerate(w.C):
+            c.name = "k%d" % j  # distinct keys: no same-key displacement in this part
+    P, C = env.classes[kind]
+    trail = [["init", sorted(init_pairs)], ["arrival", arrival]]
+    sess = orm.Session(env.eng, autoflush=False)
+    try:
+        for i, j in sorted(init_pairs):
+            if w.fam == "dict":
+                w.P[i].kids[w.C[j].name] = w.C[j]
+            elif w.fam == "set":
+                w.P[i].kids.add(w.C[j])
+            else:
+                w.P[i].kids.append(w.C[j])
+        sess.add_all(w.P + w.C)
+        sess.flush()
+        pids, cids = [p.id for p in w.P], [c.id for c in w.C]
+        if arrival == "fresh":
+            sess.expunge_all()
+            w.C = [sess.get(C, k) for k in cids]
+            w.P = [sess.get(P, k) for k in pids]
+            w.pidx = {id(o): i for i, o in enumerate(w.P)}
+            w.cidx = {id(o): i for i, o in enumerate(w.C)}
+        else:
+            sess.expire_all()
+        w.persistent = True
+        for c in w.C:  # the side the program works on is loaded
+            getattr(c, "pars" if w.m2m else "par")
+        for p in w.P:
+            p.name
+            assert "kids" not in p.__dict__
+        for n, op in enumerate(ops):
+            if load_mid is not None and n == load_mid[0]:
+                trail.append(["load", load_mid[1]])
+                w.P[load_mid[1]].kids
+            if not op_allowed(w, op, False):
+                continue
+            trail.append(list(op))
+            ctx.count("queued_ops")
+            try:
+                apply_op(w, op)
+            except EXPECTED_ERRORS:
+                ctx.count("failed_ops")
+        expected = w.child_side()  # what the program did, read from the loaded side
+        trail.append(["load-all"])
+        ctx.count("queued_load_checks")
+        ps = w.parent_side()  # loads the collections: the queued backrefs are replayed
+        mech = None
+        if ps != expected or w.child_side() != expected:
+            mech = "%s-queued-backref-sides-disagree-after-load" % kind.replace("_", "-")
+            detail = "collection side %s, other side %s" % (sorted(ps), sorted(expected))
+        else:
+            sess.flush()
+            sess.expire_all()
+            ctx.count("reload_checks")
+            ps2, cs2 = w.parent_side(), w.child_side()
+            if ps2 != expected or cs2 != expected:
+                mech = "%s-queued-backref-lost-on-flush" % kind.replace("_", "-")
+                detail = "before flush %s, after flush+reload collection side %s, other side %s" % (
+                    sorted(expected), sorted(ps2), sorted(cs2))
+        if mech:
+            ctx.violation(mech, "%s %s: %s" % (kind, trail, detail),
+                          {"kind": kind, "sequence": trail, "expected": sorted(expected), "detail": detail})
+        ctx.case({"k": kind, "queued": trail}, nontrivial=len(trail) >= 5)
+    finally:
+        sess.rollback()
+        sess.close()
+
+
+def queued_part(env, ctx, rng):
+    import itertools as it
+
+    idx = 0
+    maxlen = 3
+    for kind in ("o2m_list", "o2m_set", "o2m_dict", "m2m_list", "m2m_set"):
+        w0 = World(env, kind, nc=2)
+        alpha = other_side_ops(w0, 2)
+        inits = [set(), {(0, 0)}, {(0, 0), (0, 1)}, {(0, 0), (1, 1)}]
+        if kind.startswith("m2m"):
+            inits.append({(0, 0), (1, 0), (0, 1)})
+        for L in range(1, maxlen + 1):
+            for seq in it.product(alpha, repeat=L):
+                for k, init in enumerate(inits):
+                    for arrival in ("fresh", "expired"):
+                        idx += 1
+                        if not ctx.mine(idx):
+                            continue
+                        if ctx.quick and L == maxlen and (idx // ctx.nshards) % 3:
+                            continue  # quick: a third of the longest sequences
+                        queued_case(env, kind, init, list(seq), arrival)
+    ctx.count("queued_exhaustive_done")
+    # random: three children, longer sequences, one collection loaded midway
+    nrand = ctx.pick({"quick": 40, "thorough": 1500})
+    kinds = ("o2m_list", "o2m_set", "o2m_dict", "m2m_list", "m2m_set")
+    for k in range(nrand):
+        if not ctx.budget_ok():
+            break
+        kind = kinds[k % len(kinds)]
+        w0 = World(env, kind, nc=3)
+        alpha = other_side_ops(w0, 3)
+        init = {(rng.randrange(2), j) for j in range(3) if rng.random() < 0.6}
+        if not kind.startswith("m2m"):
+            init = {(i, j) for i, j in init}  # one parent per child by construction
+        ops = [rng.choice(alpha) for _ in range(rng.randint(2, 8))]
+        mid = (rng.randrange(len(ops)), rng.randrange(2)) if rng.random() < 0.4 else None
+        queued_case(env, kind, init, ops, rng.choice(["fresh", "expired"]), load_mid=mid, nc=3)
+
+
 def run_sequence(env, kind, ops, allow_dups=False, nc=3, verbose=False):
     """ops: op tuples, callables(w) -> op (random choice made against the live world), or
     the marker PERSIST (= add everything to a session, flush, expire_all, reload, compare;
@@ -598,7 +776,7 @@ def run_sequence(env, kind, ops, allow_dups=False, nc=3, verbose=False):
             if callable(op):
                 for _ in range(20):
                     cand = op(w)
-                    if in_simple_domain(w, cand) and op_allowed(w, cand, allow_dups):
+                    if op_allowed(w, cand, allow_dups):
                         op = cand
                         break
                 else:
@@ -675,6 +853,8 @@ def run(ctx):
                 if n in (7, 7001):
                     ctx.sample({"kind": kind, "sequence": [list(o) for o in seq]})
     ctx.count("exhaustive_done")
+    slice_class_part(env, ctx, idx)
+    queued_part(env, ctx, rng)
     # ---- targeted: move two children to another parent, then swap them by item
     # assignment, all in one flush.  Which of the two parents the unit of work processes
     # first depends on object addresses, so the scenario is repeated with fresh objects.
